@@ -863,6 +863,23 @@ def mqtt_retain_probe(name, retain):
                     f"not the configured {want!r}")
         if not topic.startswith("px/out/"):
             return f"{name}(out_prefix='px/out') published {c.strip()!r} to {topic!r}"
+    # in_prefix by effect: exactly the topics made of the configured prefix and the five message levels are
+    # taken in; what lies next to it, above it or deeper below it belongs to somebody else
+    jobs = []
+    gw.tasks.add_job = lambda func, *args: jobs.append(args)
+    deliveries = [("px/in/1/1/1/0/2", True), ("px/out/1/1/1/0/2", False), ("px/in/garage/1/1/1/0/2", False),
+                  ("other/1/1/1/0/2", False), ("/1/1/1/0/2", False), ("px/inx/1/1/1/0/2", False),
+                  ("px/1/1/1/0/2", False), ("gw/px/in/1/1/1/0/2", False), ("px/in/7/255/3/0/0", True),
+                  ("px/in/px/in/1/1/1/0/2", False)]
+    for topic, mine in deliveries:
+        del jobs[:]
+        try:
+            gw.tasks.transport.recv(topic, "1", 0)
+        except Exception as exc:  # noqa: BLE001
+            return f"{name}(in_prefix='px/in'): a delivery on {topic!r} raised {type(exc).__name__}: {exc}"
+        if bool(jobs) != mine:
+            return (f"{name}(in_prefix='px/in'): a delivery on {topic!r} was "
+                    f"{'taken in as ' + repr(jobs[0]) if jobs else 'ignored'}")
     return None
 
 
@@ -876,7 +893,7 @@ def run_effects(res, tmp):
                 bad = mqtt_retain_probe(name, retain)
                 if bad:
                     res.oracle_failures.append({
-                        "key": {"kind": "option-without-effect", "class": name, "option": "retain"},
+                        "key": {"kind": "option-without-effect", "class": name, "option": "retain/prefixes"},
                         "what": bad, "replay": {"op": "retain", "class": name, "retain": retain}})
     for name in CLASSES:
         for with_callback in (True, False):
